@@ -80,7 +80,7 @@ def shape (decls : List Decl) : Nat → Ty → Option (List (String × Bool × T
       | some (.iface _ ps ext ms) =>
         let σ := ps.zip args
         let base := ext.foldl (fun (acc : Option (List (String × Bool × Ty))) e =>
-          match acc, shape decls n e with
+          match acc, shape decls n (subst σ e) with          -- `extends Base<T>`: the interface's own `T`
           | some a, some (ems, none) => some (ems.foldl putMember a)
           | _, _ => none) (some [])
         base.map fun b => ((substM σ ms).foldl putMember b, none)
